@@ -261,6 +261,26 @@ class C14:
         for c in cases:
             hist[c.meta.get("kind")] = hist.get(c.meta.get("kind"), 0) + 1
         cov["kind_histogram"] = hist
+        import proxyflows as pf
+        if pf.USP_FIELDS:
+            # outside the grammar domain, differential only: Via and CSeq texts whose sent-protocol / number are followed by
+            # Unicode white space (strings.Fields splits there) or by look-alikes that are no white space
+            raw = []
+            for i in range(300 if tier == "quick" else 5000):
+                sp = rng.choice(pf.USPACE + pf.NOT_USPACE + [b" ", b"  ", b"\t", b""])
+                sp2 = rng.choice(pf.USPACE + [b"", b"", b" "])
+                if i % 2 == 0:
+                    txt = sp2 + b"SIP/2.0/" + rng.choice([b"UDP", b"TCP"]) + sp + host(rng) + rng.choice([b"", b":5060"]) + sp2 + b";branch=z9hG4bK" + safe(rng)
+                    kind = "via"
+                else:
+                    txt = sp2 + rng.choice([b"1", b"4294967295", b"007"]) + sp + rng.choice([b"INVITE", b"ACK", safe(rng)]) + sp2
+                    kind = "cseq"
+                raw.append(Case("codec", "u%d" % i, [kind, txt, 0], {"kind": kind, "class": "unicode-space"}))
+            c2, f2 = lib.differential(ctx, raw, judge=False, max_failures=10,
+                                      describe=lambda c, io, mo: "%s %s -> %s" % (c.toks[0].decode(), lib.show(c.toks[1], 80),
+                                                                                lib.show(io[1], 80) if len(io) > 1 else io))
+            cov["unicode_space_stream"] = {"evaluations": c2["evaluations"], "agree": c2.get("traces_validated_against_impl")}
+            out.extend(f2)
         return {"coverage": cov, "failures": out}
 
 
